@@ -3,6 +3,7 @@
 // rejected with a non-zero return, a zero reported length, and an output buffer in which every byte is either
 // the pre-fill or one constant filler byte (the same for independent keys/messages).
 #include "vh_main.hpp"
+#include "giant.hpp"
 using namespace vh;
 
 namespace {
@@ -364,7 +365,158 @@ void explore_f(Ctx &ctx, const char *family) {
     }
 }
 
+// ------------------------------------------------------------------ box: ciphertexts anyone can compute
+// A sender "public key" of low order makes the X25519 shared point all-zero whatever the recipient's secret key is, so the box key would be
+// a public constant.  A ciphertext sealed under such a constant (no secret key involved: a forgery in the plainest sense) must be rejected
+// by every opening form, for every recipient, and must release nothing.
+struct ForgeCase { int cipher; int pt; int top; int kcand; int form; size_t mlen; uint64_t cseed; unsigned long mask;
+    KV kv() const { KV k; k.s("kind", "forge").u("cipher", cipher).u("pt", pt).u("top", top).u("kcand", kcand).u("form", form).u("mlen", mlen).u("cseed", cseed).u("mask", mask); return k; } };
+const char *LOWPT[] = { "0000000000000000000000000000000000000000000000000000000000000000", "0100000000000000000000000000000000000000000000000000000000000000",
+    "e0eb7a7c3b41b8ae1656e3faf19fc46ada098deb9c32b1fd866205165f49b800", "5f9c95bca3508c24b1d0b1559c83ef5b04445cc4581c8e86d8224eddd09f1157",
+    "ecffffffffffffffffffffffffffffffffffffffffffffffffffffffffffff7f", "edffffffffffffffffffffffffffffffffffffffffffffffffffffffffffff7f",
+    "eeffffffffffffffffffffffffffffffffffffffffffffffffffffffffffff7f" };
+bool run_forge(const ForgeCase &c, std::string &msg) {
+    set_mask(c.mask);
+    Rng r(c.cseed);
+    Bytes pk = unhex(LOWPT[c.pt]); if (c.top) pk[31] |= 0x80;
+    Bytes seed = r.bytes(32), rpk(32), rsk(32), n = r.bytes(24), m = r.bytes(c.mlen), k(32, 0), z16(16, 0), z32(32, 0);
+    if (c.cipher == 0) crypto_box_seed_keypair(D(rpk), D(rsk), D(seed)); else crypto_box_curve25519xchacha20poly1305_seed_keypair(D(rpk), D(rsk), D(seed));
+    switch (c.kcand) {       // keys an outsider can compute
+    case 0: crypto_core_hsalsa20(D(k), D(z16), D(z32), nullptr); break;
+    case 1: crypto_core_hchacha20(D(k), D(z16), D(z32), nullptr); break;
+    case 2: break;                                                        // all-zero key
+    case 3: crypto_core_hsalsa20(D(k), D(z16), D(pk), nullptr); break;
+    default: crypto_core_hchacha20(D(k), D(z16), D(pk), nullptr); break;
+    }
+    Bytes ct(c.mlen + 16);
+    if (c.cipher == 0) crypto_box_easy_afternm(D(ct), D(m), c.mlen, D(n), D(k)); else crypto_box_curve25519xchacha20poly1305_easy_afternm(D(ct), D(m), c.mlen, D(n), D(k));
+    Bytes prefill(c.mlen + 32); for (size_t i = 0; i < prefill.size(); i++) prefill[i] = (uint8_t) (0xa0 + (i * 7) % 0x53);
+    XBuf out(prefill, 4);
+    int rc; const char *fn; size_t moff = 0;
+    if (c.form == 0) { fn = c.cipher == 0 ? "crypto_box_open_easy" : "crypto_box_curve25519xchacha20poly1305_open_easy";
+        rc = c.cipher == 0 ? crypto_box_open_easy(out.p, D(ct), ct.size(), D(n), D(pk), D(rsk)) : crypto_box_curve25519xchacha20poly1305_open_easy(out.p, D(ct), ct.size(), D(n), D(pk), D(rsk)); }
+    else if (c.form == 1) { fn = c.cipher == 0 ? "crypto_box_open_detached" : "crypto_box_curve25519xchacha20poly1305_open_detached";
+        rc = c.cipher == 0 ? crypto_box_open_detached(out.p, D(ct) + 16, D(ct), c.mlen, D(n), D(pk), D(rsk)) : crypto_box_curve25519xchacha20poly1305_open_detached(out.p, D(ct) + 16, D(ct), c.mlen, D(n), D(pk), D(rsk)); }
+    else { if (c.cipher != 0) return true; fn = "crypto_box_open"; moff = 32;
+        Bytes padded(16, 0); padded.insert(padded.end(), ct.begin(), ct.end());
+        rc = crypto_box_open(out.p, D(padded), padded.size(), D(n), D(pk), D(rsk)); }
+    char b[400];
+    if (rc == 0) { snprintf(b, sizeof b, "%s accepted a ciphertext computed without any secret key: sender public key %s%s (low order), box key candidate %d, message length %zu", fn, LOWPT[c.pt], c.top ? " with the top bit set" : "", c.kcand, c.mlen); msg = b; return false; }
+    Bytes now = out.get();
+    if (c.mlen >= 8) for (size_t j = 0; j + 8 <= now.size(); j++) if (memcmp(&now[j], m.data(), 8) == 0) { snprintf(b, sizeof b, "%s rejected a public-key-less forgery but released its plaintext at output offset %zu", fn, j); msg = b; return false; }
+    (void) moff;
+    return true;
+}
+void explore_forge(Ctx &ctx) {
+    Rng r = ctx.rng("c02-forge");
+    uint64_t idx = 0;
+    for (unsigned long mask : masks02(true)) for (int cipher = 0; cipher < 2; cipher++) for (int pt = 0; pt < 7; pt++) for (int top = 0; top < 2; top++) for (int kc = 0; kc < 5; kc++)
+        for (int form = 0; form < 3; form++) for (size_t mlen : { (size_t) 0, (size_t) 1, (size_t) 40 }) {
+            uint64_t cs = r.next();
+            if (!ctx.mine(idx++)) continue;
+            ForgeCase c{ cipher, pt, top, kc, form, mlen, cs, mask };
+            exec_case(ctx, c, run_forge, mix64(mix64(mix64(cipher, pt), mix64(top, kc)), mix64(mix64(form, mlen), mask)), !(cipher != 0 && form == 2));
+        }
+}
+
+// ------------------------------------------------------------------ inputs of 4 GiB and more (thorough tier, non-sanitizer build, first round)
+// "Changing any bit ... makes the call fail" also beyond byte 2^32.  Associated data / MAC'ed messages are sparse read-only-cost mappings
+// (2^32 + 77 bytes, a few poked bytes); the ciphertext variant encrypts a real 4 GiB buffer in place and verifies with m == NULL.
+enum GKind { G_CHACHA, G_CHACHA_IETF, G_XCHACHA, G_AESGCM, G_AEGIS128L, G_AEGIS256, G_SECRETSTREAM, G_ONETIMEAUTH, G_HMAC256, G_HMAC512, G_HMAC512256, NGK };
+const char *GKN[] = { "chacha20poly1305", "chacha20poly1305_ietf", "xchacha20poly1305_ietf", "aes256gcm", "aegis128l", "aegis256", "secretstream", "onetimeauth_verify", "auth_hmacsha256_verify", "auth_hmacsha512_verify", "auth_hmacsha512256_verify" };
+struct GiantCase { int kind; bool big_ct; size_t len; KV kv() const { KV k; k.s("kind", "giant").s("api", GKN[kind]).u("gk", kind).u("big_ct", big_ct).u("len", len); return k; } };
+uint64_t g_giant_skipped = 0;
+// one verification: ad / c are the (possibly huge) inputs; returns the library's verdict (0 accept, -1 reject)
+int giant_verify(int kind, const uint8_t *c, size_t clen, const uint8_t *mac, const uint8_t *ad, size_t adlen, const uint8_t *npub, const uint8_t *key, crypto_secretstream_xchacha20poly1305_state *st_template) {
+    switch (kind) {
+    case G_CHACHA: return crypto_aead_chacha20poly1305_decrypt_detached(nullptr, nullptr, c, clen, mac, ad, adlen, npub, key);
+    case G_CHACHA_IETF: return crypto_aead_chacha20poly1305_ietf_decrypt_detached(nullptr, nullptr, c, clen, mac, ad, adlen, npub, key);
+    case G_XCHACHA: return crypto_aead_xchacha20poly1305_ietf_decrypt_detached(nullptr, nullptr, c, clen, mac, ad, adlen, npub, key);
+    case G_AESGCM: return crypto_aead_aes256gcm_decrypt_detached(nullptr, nullptr, c, clen, mac, ad, adlen, npub, key);
+    case G_AEGIS128L: return crypto_aead_aegis128l_decrypt_detached(nullptr, nullptr, c, clen, mac, ad, adlen, npub, key);
+    case G_AEGIS256: return crypto_aead_aegis256_decrypt_detached(nullptr, nullptr, c, clen, mac, ad, adlen, npub, key);
+    case G_SECRETSTREAM: { crypto_secretstream_xchacha20poly1305_state st = *st_template; unsigned char m[64]; unsigned long long ml = 0; unsigned char tag = 0; return crypto_secretstream_xchacha20poly1305_pull(&st, m, &ml, &tag, c, clen, ad, adlen); }
+    case G_ONETIMEAUTH: return crypto_onetimeauth_verify(mac, ad, adlen, key);
+    case G_HMAC256: return crypto_auth_hmacsha256_verify(mac, ad, adlen, key);
+    case G_HMAC512: return crypto_auth_hmacsha512_verify(mac, ad, adlen, key);
+    default: return crypto_auth_hmacsha512256_verify(mac, ad, adlen, key);
+    }
+}
+bool run_giant(const GiantCase &g, std::string &msg) {
+    set_mask(F_ALL);
+    if (g.kind == G_AESGCM && !crypto_aead_aes256gcm_is_available()) return true;
+    giant::Map M(g.len); if (!M.ok()) { g_giant_skipped++; return true; }
+    unsigned char key[32], npub[32], mac[64], small[64], hdr[24]; unsigned long long l = 0;
+    for (int i = 0; i < 32; i++) { key[i] = (unsigned char) (9 * i + 1); npub[i] = (unsigned char) (0x70 + i); }
+    for (int i = 0; i < 64; i++) small[i] = (unsigned char) (3 * i);
+    memset(mac, 0, sizeof mac);
+    crypto_secretstream_xchacha20poly1305_state st0; memset(&st0, 0, sizeof st0);
+    const uint8_t *c; size_t clen; const uint8_t *ad; size_t adlen;
+    unsigned char sc[64 + crypto_secretstream_xchacha20poly1305_ABYTES];
+    bool is_mac = g.kind >= G_ONETIMEAUTH;
+    if (g.big_ct) {
+        if (is_mac || g.kind == G_SECRETSTREAM) return true;
+        if (!giant::have_memory(g.len)) { g_giant_skipped++; return true; }
+        M.fill(0x1234 + (uint64_t) g.kind);        // real memory: the library encrypts it in place
+        int r = 0;
+        switch (g.kind) {
+        case G_CHACHA: r = crypto_aead_chacha20poly1305_encrypt_detached(M.p, mac, &l, M.p, g.len, small, 20, nullptr, npub, key); break;
+        case G_CHACHA_IETF: r = crypto_aead_chacha20poly1305_ietf_encrypt_detached(M.p, mac, &l, M.p, g.len, small, 20, nullptr, npub, key); break;
+        case G_XCHACHA: r = crypto_aead_xchacha20poly1305_ietf_encrypt_detached(M.p, mac, &l, M.p, g.len, small, 20, nullptr, npub, key); break;
+        case G_AESGCM: r = crypto_aead_aes256gcm_encrypt_detached(M.p, mac, &l, M.p, g.len, small, 20, nullptr, npub, key); break;
+        case G_AEGIS128L: r = crypto_aead_aegis128l_encrypt_detached(M.p, mac, &l, M.p, g.len, small, 20, nullptr, npub, key); break;
+        default: r = crypto_aead_aegis256_encrypt_detached(M.p, mac, &l, M.p, g.len, small, 20, nullptr, npub, key); break;
+        }
+        if (r != 0) { msg = std::string(GKN[g.kind]) + " encrypt_detached over " + std::to_string(g.len) + " bytes returned " + std::to_string(r); return false; }
+        c = M.p; clen = g.len; ad = small; adlen = 20;
+    } else {
+        M.poke();
+        ad = M.p; adlen = g.len; c = small; clen = 16;
+        int r = 0;
+        switch (g.kind) {
+        case G_CHACHA: r = crypto_aead_chacha20poly1305_encrypt_detached(small, mac, &l, small, 16, ad, adlen, nullptr, npub, key); break;
+        case G_CHACHA_IETF: r = crypto_aead_chacha20poly1305_ietf_encrypt_detached(small, mac, &l, small, 16, ad, adlen, nullptr, npub, key); break;
+        case G_XCHACHA: r = crypto_aead_xchacha20poly1305_ietf_encrypt_detached(small, mac, &l, small, 16, ad, adlen, nullptr, npub, key); break;
+        case G_AESGCM: r = crypto_aead_aes256gcm_encrypt_detached(small, mac, &l, small, 16, ad, adlen, nullptr, npub, key); break;
+        case G_AEGIS128L: r = crypto_aead_aegis128l_encrypt_detached(small, mac, &l, small, 16, ad, adlen, nullptr, npub, key); break;
+        case G_AEGIS256: r = crypto_aead_aegis256_encrypt_detached(small, mac, &l, small, 16, ad, adlen, nullptr, npub, key); break;
+        case G_SECRETSTREAM: { crypto_secretstream_xchacha20poly1305_state ps; crypto_secretstream_xchacha20poly1305_init_push(&ps, hdr, key); r = crypto_secretstream_xchacha20poly1305_push(&ps, sc, &l, small, 40, ad, adlen, 0); crypto_secretstream_xchacha20poly1305_init_pull(&st0, hdr, key); c = sc; clen = (size_t) l; break; }
+        case G_ONETIMEAUTH: r = crypto_onetimeauth(mac, ad, adlen, key); break;
+        case G_HMAC256: r = crypto_auth_hmacsha256(mac, ad, adlen, key); break;
+        case G_HMAC512: r = crypto_auth_hmacsha512(mac, ad, adlen, key); break;
+        default: r = crypto_auth_hmacsha512256(mac, ad, adlen, key); break;
+        }
+        if (r != 0) { msg = std::string(GKN[g.kind]) + " over " + std::to_string(g.len) + " bytes of associated data / message returned " + std::to_string(r); return false; }
+    }
+    char b[300];
+    int v0 = giant_verify(g.kind, c, clen, mac, ad, adlen, npub, key, &st0);
+    if (v0 != 0) { snprintf(b, sizeof b, "%s: the genuine input (%s of %zu bytes) was rejected (%d)", GKN[g.kind], g.big_ct ? "ciphertext" : "associated data / message", g.len, v0); msg = b; return false; }
+    const size_t G = (size_t) 1 << 32;
+    for (size_t pos : { G + 5, g.len - 1, G - 1, (size_t) 100, G + 64, g.len / 2 + 3 }) {
+        if (pos >= g.len) continue;
+        M.p[pos] ^= 0x10;
+        int v = giant_verify(g.kind, c, clen, mac, ad, adlen, npub, key, &st0);
+        M.p[pos] ^= 0x10;
+        if (v == 0) { snprintf(b, sizeof b, "%s accepted a tampered input: bit 4 of byte %zu of the %s (%zu bytes) flipped", GKN[g.kind], pos, g.big_ct ? "ciphertext" : "associated data / message", g.len); msg = b; return false; }
+    }
+    return true;
+}
+void explore_giant(Ctx &ctx) {
+    if (!ctx.thorough() || !giant::fast_build() || !giant::first_round()) { ctx.notes["giant_inputs"] = "thorough tier, non-sanitizer build, first round only"; return; }
+    uint64_t idx = 0;
+    for (int big_ct = 0; big_ct < 2; big_ct++) for (int k = 0; k < NGK; k++) {
+        if (big_ct && k >= G_SECRETSTREAM) continue;
+        uint64_t i = idx++;
+        if (big_ct ? ctx.worker != (int) (i % (uint64_t) std::min(ctx.nworkers, 2)) : !ctx.mine(i)) continue;      // real 4 GiB buffers: two at a time at most
+        GiantCase g{ k, big_ct != 0, ((size_t) 1 << 32) + 77 };
+        exec_case(ctx, g, run_giant, mix64(mix64(k, big_ct), g.len), true);
+    }
+    ctx.notes["giant_inputs_skipped_no_memory"] = std::to_string(g_giant_skipped);
+}
+
 bool replay(const KV &k, std::string &msg) {
+    if (k.gs("kind") == "forge") { ForgeCase c{ (int) k.gu("cipher"), (int) k.gu("pt"), (int) k.gu("top"), (int) k.gu("kcand"), (int) k.gu("form"), (size_t) k.gu("mlen"), k.gu("cseed"), (unsigned long) k.gu("mask") }; return run_forge(c, msg); }
+    if (k.gs("kind") == "giant") { GiantCase g{ (int) k.gu("gk"), k.gu("big_ct") != 0, (size_t) k.gu("len") }; return run_giant(g, msg); }
     Case c; c.v = -1;
     for (size_t i = 0; i < verifiers().size(); i++) if (k.gs("api") == verifiers()[i].name) c.v = (int) i;
     if (c.v < 0) { msg = "unknown api"; return false; }
@@ -379,5 +531,7 @@ bool replay(const KV &k, std::string &msg) {
 std::vector<Sub> vh_subs() {
     std::vector<Sub> v;
     for (const char *f : { "aead", "secretbox", "box", "secretstream", "mac", "sign" }) v.push_back(Sub{ f, [f](Ctx &c) { explore_f(c, f); }, replay });
+    v.push_back(Sub{ "box_public_forgery", explore_forge, replay });
+    v.push_back(Sub{ "giant_inputs", explore_giant, replay });
     return v;
 }
